@@ -46,6 +46,7 @@ def build_plan(choice: Choice, tier):
     if n and d(8, "init.long") == 7:
         p["init"][d(n, "init.long.at")] += "L" * 9000
     p["final_nl"] = d(3, "init.final_nl") != 0 or (n > 0 and p["init"][-1] == "")
+    p["index_file"] = d(5, "index.file") == 4      # the line offsets come from an index file
     ops = []
     fresh = [0]
 
@@ -183,7 +184,17 @@ def execute(plan, choice, tmpdir, trace):
     fp.active = False
     files.open = make_open(fp, lambda p, mode: p.startswith(tmpdir))
     cls = getattr(files, plan["variant"])
-    obj = cls(src, Rec) if rec else cls(src)
+    idx_path = None
+    if plan.get("index_file"):
+        idx_path = os.path.join(tmpdir, "source.index")
+        pos = 0
+        with open(idx_path, "w") as f:
+            for it in init_items:
+                f.write(f"{pos}\n")
+                pos += len(line_of(it).encode("utf-8")) + 1
+        obj = cls(src, Rec, idx_path) if rec else cls(src, idx_path)
+    else:
+        obj = cls(src, Rec) if rec else cls(src)
     model = list(init_items)
     viol = []
     sched = CoopScheduler(choice, plan["stickiness"])
@@ -464,6 +475,13 @@ def execute(plan, choice, tmpdir, trace):
                 sched.add(f"client{cid}", client(cid))
             sched.run()
             compare_all("final")
+            if idx_path is not None and not viol:
+                # a fresh, unmodified object made from the same index file must show the ORIGINAL lines
+                with (cls(src, Rec, idx_path) if rec else cls(src, idx_path)) as fresh:
+                    got = list(fresh)
+                if got != init_items:
+                    v("list-model", "fresh-object-from-the-same-index-file",
+                      f"a new object created from the same index file after the edits reads {short(got)}, the source holds {short(init_items)}")
     except Exception as e:  # noqa
         import traceback
         tb = traceback.format_exc()
